@@ -386,3 +386,12 @@ def run(ctx):
         ctx.ob("R-C07.8", fn, "single-op-read-goes-through-a-view", ok,
                "reads through db.read_tx()" if ok else "reads the plain keyspace's latest state (%s) instead of a read view: it can observe a commit that is only partly applied" % (bad[0][1] if bad else "no read_tx"),
                fn.loc(bad[0][0]) if bad else "")
+
+    # ---- borrowed obligations (mechanisms owned by other properties that this property's verdict also rests on)
+    # the oracle's instants are the visible seqno: nothing publishes past the generator, or the first commit after it is missed by validation
+    ctx.borrow("C06", ["R-C06.1", "R-C06.2", "R-C06.3", "R-C06.4"], "R-C07.9")
+    # the meta keyspace publishes exactly what it drew
+    ctx.borrow("C11", ["R-C11.4"], "R-C07.10")
+    # the committed batch is the transaction's final write set
+    ctx.borrow("C08", ["R-C08.4"], "R-C07.11")
+
